@@ -705,10 +705,87 @@ func genDoc(r *hx.Rand, v *View, size int) *GDoc {
 	}
 	doc.Defs = append(doc.Defs, g.frags...)
 	if r.Chance(1, 3) {
+		g.shareNames(doc)
+	}
+	if r.Chance(1, 3) {
 		hx.Shuffle(r, doc.Defs)
 	}
 	doc.declareVars(g.vars)
 	return doc
+}
+
+// shareNames: operations, fragments, types, fields, variables and directives live in separate
+// namespaces, so a valid document may name an operation like one of its fragments, and either
+// like a type, a field, a variable or a directive (seed C04-18 merged two of the namespaces).
+// Operation names stay distinct among operations, fragment names among fragments; spreads follow
+// the renamed fragments.
+func (g *docGen) shareNames(doc *GDoc) {
+	pool := []string{"skip", "include", "Query", "String", "ok", "__typename"}
+	pool = pool[:4+g.r.Intn(2)] // names starting with "__" are legal for operations, keep them rare
+	for _, t := range g.v.Types {
+		pool = append(pool, t.Name)
+		for _, f := range t.Fields {
+			pool = append(pool, f.Name)
+		}
+	}
+	pool = append(pool, g.varOrder...)
+	usedOp, usedFrag := map[string]bool{}, map[string]bool{}
+	for _, d := range doc.Defs {
+		if d.IsFrag {
+			usedFrag[d.Name] = true
+		} else if d.Name != "" {
+			usedOp[d.Name] = true
+		}
+	}
+	renameFrag := func(old, nu string) {
+		var walk func(sels []*GSel)
+		walk = func(sels []*GSel) {
+			for _, s := range sels {
+				if s.Kind == "spread" && s.Name == old {
+					s.Name = nu
+				}
+				walk(s.Sels)
+			}
+		}
+		for _, d := range doc.Defs {
+			walk(d.Sels)
+		}
+	}
+	// fragments named like things of other namespaces
+	for _, d := range doc.Defs {
+		if d.IsFrag && g.r.Chance(1, 2) {
+			nu := hx.Pick(g.r, pool)
+			if nu == "on" || nu == "__typename" || usedFrag[nu] {
+				continue
+			}
+			delete(usedFrag, d.Name)
+			renameFrag(d.Name, nu)
+			d.Name = nu
+			usedFrag[nu] = true
+		}
+	}
+	// operations named like a fragment of the document (or like the other things)
+	var fragNames []string
+	for _, d := range doc.Defs {
+		if d.IsFrag {
+			fragNames = append(fragNames, d.Name)
+		}
+	}
+	for _, d := range doc.Defs {
+		if d.IsFrag || d.Name == "" {
+			continue
+		}
+		nu := hx.Pick(g.r, pool)
+		if len(fragNames) > 0 && g.r.Chance(2, 3) {
+			nu = hx.Pick(g.r, fragNames)
+		}
+		if usedOp[nu] {
+			continue
+		}
+		delete(usedOp, d.Name)
+		d.Name = nu
+		usedOp[nu] = true
+	}
 }
 
 // ---- printing ---------------------------------------------------------------------------------
